@@ -212,6 +212,11 @@ func (c *Compiler) typeToCode(typ *runtime.Type) (Code, error) {
 		if isPtr && typ.Implements(marshalTextType) {
 			typ = orgType
 		}
+		if isPtr && toElemType(typ).Kind() == reflect.Map {
+			// a map value is itself the pointer the map opcodes work on: every pointer
+			// in front of it has to be followed ( **map, ***map ), as for *map above
+			return c.ptrCode(orgType)
+		}
 		return c.typeToCodeWithPtr(typ, isPtr)
 	}
 }
